@@ -164,17 +164,35 @@ def confirm(v):
     generated unit test natively against the real crate.  Sets v['replayed'] and v['playback_test']."""
     crate, name = v["crate"], v["harness"]
     _, out, timed_out, _ = run_one(crate, {"name": name}, {"timeout": 1800}, extra=("-Z", "concrete-playback", "--concrete-playback=print"))
-    m = re.search(r"```\n(.*?)```", out, re.S)
-    if not m:
+    # Kani prints one generated test per failed check AND one per satisfied cover!: the witnesses of covers are
+    # not counterexamples; the tests of failed checks are tried in turn until one reproduces natively
+    tests = [m.group(1) for m in re.finditer(r"```\n(.*?)```", out, re.S)]
+    tests = [t for t in tests if not re.search(r"/// Check for `cover`", t)]
+    if not tests:
         v["replayed"] = None
         return v
-    test_src = m.group(1)
-    v["playback_test"] = test_src
+    # prefer the test generated for the check this violation is about
+    want = (v.get("check") or "").split("[")[0]
+    tests.sort(key=lambda t: 0 if want and want in t else 1)
+    v["replayed"] = None
+    for test_src in tests[:6]:
+        r = _playback_one(crate, name, test_src, v)
+        if r is True:
+            v["replayed"] = True
+            v["playback_test"] = test_src
+            return v
+        if r is False and v["replayed"] is None:
+            v["replayed"] = False
+            v["playback_test"] = test_src
+    return v
+
+
+def _playback_one(crate, name, test_src, v):
     tn = re.search(r"fn (kani_concrete_playback_\w+)", test_src)
     if not tn:
-        return v
+        return None
     # scratch copy of the harness crate with the test appended to the module that owns the harness
-    scratch = os.path.join(ROOT, "target", "kani_playback", crate)
+    scratch = os.path.join(ROOT, "target", "kani_playback", f"{crate}-{os.getpid()}")
     shutil.rmtree(scratch, ignore_errors=True)
     shutil.copytree(os.path.join(HARNESS, crate), scratch, ignore=shutil.ignore_patterns("target"))
     owner = None
@@ -185,21 +203,24 @@ def confirm(v):
             if re.search(r"fn\s+" + re.escape(name) + r"\s*\(", text) or re.search(r"!\(\s*" + re.escape(name) + r"\s*,", text):
                 owner = p
     if not owner:
-        return v
+        shutil.rmtree(scratch, ignore_errors=True)
+        return None
     with open(owner, "a") as f:
         f.write("\n" + test_src + "\n")
-    p = subprocess.run(["cargo", "kani", "playback", "-Z", "concrete-playback", "--", tn.group(1)], cwd=scratch,
-                       capture_output=True, text=True, env=env(), timeout=3000)
-    o = p.stdout + p.stderr
-    if re.search(r"test result: FAILED|panicked at", o):
-        v["replayed"] = True
-    elif re.search(r"test result: ok", o):
-        v["replayed"] = False
-    else:
-        v["replayed"] = None
-        v["playback_log"] = o[-800:]
+    try:
+        p = subprocess.run(["cargo", "kani", "playback", "-Z", "concrete-playback", "--", tn.group(1)], cwd=scratch,
+                           capture_output=True, text=True, env=env(), timeout=3000)
+        o = p.stdout + p.stderr
+    except subprocess.TimeoutExpired:
+        o = "playback timed out"
     shutil.rmtree(scratch, ignore_errors=True)
-    return v
+    if re.search(r"test result: FAILED|panicked at", o):
+        return True
+    # a run that executed no test says nothing
+    if re.search(r"test result: ok\. [1-9]\d* passed", o):
+        return False
+    v["playback_log"] = o[-800:]
+    return None
 
 
 def replay(v):
